@@ -526,6 +526,14 @@ func Explore(fn *ssa.Function, b *ssa.BasicBlock, idx int, pred *ssa.BasicBlock,
 					for _, o := range outs {
 						s2 := st.Clone()
 						bindResults(s2, x, o)
+						// record the chosen outcome: a result labelled "tag:label" leaves an event
+						// "outcome:tag"(label) so that rules can read the sequence of outcomes
+						for idx := 0; idx < 4; idx++ {
+							if v, ok := o[idx]; ok && strings.Contains(v.Sym, ":") {
+								k := strings.Index(v.Sym, ":")
+								s2.Emit("outcome:"+v.Sym[:k], v.Sym[k+1:], x)
+							}
+						}
 						Explore(fn, b, i+1, pred, s2, h)
 					}
 					return
